@@ -34,7 +34,7 @@ def slice_key(sl):
     if isinstance(sl, ast.Slice):
         lo = None if sl.lower is None or (isinstance(sl.lower, ast.Constant) and sl.lower.value == 0) else ntext(sl.lower)
         hi = None if sl.upper is None else ntext(sl.upper)
-        st = None if sl.step is None else ntext(sl.step)
+        st = None if sl.step is None or (isinstance(sl.step, ast.Constant) and sl.step.value == 1) else ntext(sl.step)
         return 'slice(%s,%s,%s)' % (lo, hi, st)
     return ntext(sl)
 
